@@ -206,13 +206,13 @@ func concretizeIndex(idx value, n int, what string) int {
 	if !ok {
 		i := asInt64(idx)
 		if i < 0 || i >= int64(n) {
-			panic(runtimeError(what + ": index out of range"))
+			panic(runtimeError(fmt.Sprintf("index out of range [%d] with length %d", i, n)))
 		}
 		return int(i)
 	}
 	out := sym.Or(sym.Lt(s.T, sym.Int(0)), sym.Le(sym.Int(int64(n)), s.T))
 	if cx.Branch(out) {
-		panic(runtimeError(what + ": index out of range"))
+		panic(runtimeError("index out of range [symbolic] with length " + fmt.Sprint(n)))
 	}
 	if n > 4096 {
 		Unsupported("%s: symbolic index into %d elements", what, n)
